@@ -1,4 +1,6 @@
 import BSModel.Proofs.HeapContig
+import BSModel.Proofs.HeapExtract
+import BSModel.Proofs.HeapLink
 /-! # C02 — each editing call has exactly its documented effect on tree shape
 
 The forest is the pair (children lists, parent fields) of the pointer heap. The theorems give the closed form
@@ -10,35 +12,35 @@ open BS.Heap
 /-- **extract**: on a consistent forest `extract` always succeeds; `x` leaves its parent's children list,
     becomes parentless; no other children list and no other parent field changes — `x` comes back detached
     with its own subtree intact and nothing else moves. -/
-theorem extract_effect (hE : ExtractSpec) {h : Heap} (x : Nat) (hg : Good h) :
+theorem extract_effect {h : Heap} (x : Nat) (hg : Good h) :
     ∃ h', extract h x = .ok h' ∧ Good h' ∧
       (∀ n, h'.kids n = if h.parent x = some n then (h.kids n).erase x else h.kids n) ∧
       (∀ n, h'.parent n = if n = x then none else h.parent n) := by
-  obtain ⟨h', he⟩ := extract_total hE x hg
-  obtain ⟨hg', hk, hp, _, _⟩ := extract_good hE hg he
+  obtain ⟨h', he⟩ := extract_total extract_spec x hg
+  obtain ⟨hg', hk, hp, _, _⟩ := extract_good extract_spec hg he
   exact ⟨h', he, hg', hk, hp⟩
 
 /-- **_insert** (one element): whenever it returns, `x` has been removed from wherever it was and sits in `p`'s
     children right before the element that was at index `position` (not counting `x` itself; clamped to the
     end); every other children list only loses `x`; only `x`'s parent changes. -/
-theorem insert_one_effect (hE : ExtractSpec) (hL : LinkChildSpec) {h h' : Heap} {p position x : Nat}
+theorem insert_one_effect {h h' : Heap} {p position x : Nat}
     (hg : Good h) (hp : (h.kind p).isTag = true) (hx : h.kind x ≠ .soup)
     (hi : insertCore h p position x = .ok h') :
     h'.kids p = ((h.kids p).erase x).insertIdx (((h.kids p).take position).erase x).length x ∧
     (∀ n, n ≠ p → h'.kids n = (h.kids n).erase x) ∧
     (∀ n, h'.parent n = if n = x then some p else h.parent n) :=
-  insertCore_shape hE hL hg hp hx hi
+  insertCore_shape extract_spec linkChild_spec hg hp hx hi
 
 /-- **insert** (several elements): the distinct elements `xs` end up contiguous, in the requested order, right
     before the element that was at index `position`, not counting the inserted elements themselves; the other
     children keep their relative order. -/
-theorem insert_many_contiguous (hE : ExtractSpec) (hL : LinkChildSpec) {h h' : Heap} {p position pos' : Nat}
+theorem insert_many_contiguous {h h' : Heap} {p position pos' : Nat}
     {xs : List Nat} (hg : Good2 h) (hp : (h.kind p).isTag = true) (hnd : xs.Nodup)
     (hk : ∀ x ∈ xs, h.kind x ≠ .soup) (hpos : position ≤ (h.kids p).length)
     (hi : insertElems h p position xs = .ok (h', pos')) :
     h'.kids p = ((h.kids p).take position).filter (fun k => !xs.contains k) ++ xs ++
                 ((h.kids p).drop position).filter (fun k => !xs.contains k) := by
-  have := insertElems_contiguous hE hL xs h position h' pos' ((h.kids p).take position) [] ((h.kids p).drop position)
+  have := insertElems_contiguous extract_spec linkChild_spec xs h position h' pos' ((h.kids p).take position) [] ((h.kids p).drop position)
     hg hp hnd hk (fun _ _ hm => by cases hm) (by simp) (by simp [Nat.min_eq_left hpos]) hi
   simpa using this.1
 
